@@ -20,12 +20,13 @@ const (
 type Printer struct {
 	Mode    Mode
 	defined map[int]bool
+	rng     map[int][2]*big.Int // integer rendering: syntactic value intervals
 	Err     error
 }
 
 func NewPrinter(m Mode) *Printer { return &Printer{Mode: m, defined: map[int]bool{}} }
 
-func (p *Printer) Reset() { p.defined = map[int]bool{} }
+func (p *Printer) Reset() { p.defined = map[int]bool{}; p.rng = nil }
 
 func pow2(w int) *big.Int { return new(big.Int).Lsh(big.NewInt(1), uint(w)) }
 
@@ -260,16 +261,180 @@ func (p *Printer) intRange(t *T) string {
 	return "(assert (and (<= 0 " + n + ") (< " + n + " " + pow2(t.W).String() + ")))\n"
 }
 
+// lowZeros / highZeros: syntactic lower bounds on the number of clear low /
+// high bits of a w-bit term.
+func lowZeros(t *T) int {
+	switch t.Op {
+	case Shl:
+		if t.A[1].IsConst() && t.A[1].Big == nil {
+			return int(t.A[1].K) + lowZeros(t.A[0])
+		}
+	case Const:
+		v := t.ConstBig()
+		if v.Sign() == 0 {
+			return t.W
+		}
+		return int(v.TrailingZeroBits())
+	}
+	return 0
+}
+
+func highZeros(t *T) int {
+	switch t.Op {
+	case LShr:
+		if t.A[1].IsConst() && t.A[1].Big == nil {
+			return int(t.A[1].K) + highZeros(t.A[0])
+		}
+	case ZExt:
+		return t.W - t.A[0].W + highZeros(t.A[0])
+	case And:
+		for i := 0; i < 2; i++ {
+			if t.A[i].IsConst() {
+				return t.W - t.A[i].ConstBig().BitLen()
+			}
+		}
+	case Const:
+		return t.W - t.ConstBig().BitLen()
+	}
+	return 0
+}
+
+func disjointBits(a, b *T, w int) (int, int, bool) {
+	if lz, hz := lowZeros(a), highZeros(b); lz > 0 && lz+hz >= w {
+		return lz, hz, true
+	}
+	if lz, hz := lowZeros(b), highZeros(a); lz > 0 && lz+hz >= w {
+		return lz, hz, true
+	}
+	return 0, 0, false
+}
+
+// uRange is a syntactic interval for the unsigned value of a term whose
+// integer rendering is unsigned (and whose operands are): it lets the
+// integer rendering drop the "mod 2^w" of operations that provably do not
+// wrap, which is what makes multiply/shift kernels decidable in practice.
+func (p *Printer) uRange(t *T) (lo, hi *big.Int) {
+	if p.rng == nil {
+		p.rng = map[int][2]*big.Int{}
+	}
+	if r, ok := p.rng[t.ID]; ok {
+		return r[0], r[1]
+	}
+	full := func() (*big.Int, *big.Int) {
+		return big.NewInt(0), new(big.Int).Sub(pow2(t.W), big.NewInt(1))
+	}
+	lo, hi = full()
+	max := new(big.Int).Set(hi)
+	unsignedArgs := !t.Sg
+	for _, a := range t.A {
+		if a.Sg || a.W <= 0 {
+			unsignedArgs = false
+		}
+	}
+	if t.W > 0 && unsignedArgs {
+		switch t.Op {
+		case Const:
+			lo, hi = t.ConstBig(), t.ConstBig()
+		case ZExt:
+			lo, hi = p.uRange(t.A[0])
+		case Add, Mul, Sub, Shl:
+			if l, h, ok := p.rawRange(t); ok && l.Sign() >= 0 && h.Cmp(max) <= 0 {
+				lo, hi = l, h
+			}
+		case LShr:
+			if t.A[1].IsConst() && t.A[1].Big == nil && int(t.A[1].K) < t.W {
+				l, h := p.uRange(t.A[0])
+				lo, hi = new(big.Int).Rsh(l, uint(t.A[1].K)), new(big.Int).Rsh(h, uint(t.A[1].K))
+			}
+		case UDiv:
+			_, h := p.uRange(t.A[0])
+			lo, hi = big.NewInt(0), h
+		case URem:
+			_, h := p.uRange(t.A[1])
+			if h.Sign() > 0 {
+				lo, hi = big.NewInt(0), new(big.Int).Sub(h, big.NewInt(1))
+			}
+		case And:
+			_, h0 := p.uRange(t.A[0])
+			_, h1 := p.uRange(t.A[1])
+			lo = big.NewInt(0)
+			if h0.Cmp(h1) < 0 {
+				hi = h0
+			} else {
+				hi = h1
+			}
+		case Extract:
+			lo, hi = big.NewInt(0), new(big.Int).Sub(pow2(t.P1-t.P2+1), big.NewInt(1))
+		case Ite:
+			l1, h1 := p.uRange(t.A[1])
+			l2, h2 := p.uRange(t.A[2])
+			lo, hi = l1, h1
+			if l2.Cmp(lo) < 0 {
+				lo = l2
+			}
+			if h2.Cmp(hi) > 0 {
+				hi = h2
+			}
+		}
+	}
+	p.rng[t.ID] = [2]*big.Int{lo, hi}
+	return
+}
+
+// rawRange is the interval of the un-wrapped result of an arithmetic term
+// over unsigned operands.
+func (p *Printer) rawRange(t *T) (lo, hi *big.Int, ok bool) {
+	for _, a := range t.A {
+		if a.Sg || a.W <= 0 {
+			return nil, nil, false
+		}
+	}
+	if t.Sg {
+		return nil, nil, false
+	}
+	l0, h0 := p.uRange(t.A[0])
+	switch t.Op {
+	case Add:
+		l1, h1 := p.uRange(t.A[1])
+		return new(big.Int).Add(l0, l1), new(big.Int).Add(h0, h1), true
+	case Sub:
+		l1, h1 := p.uRange(t.A[1])
+		return new(big.Int).Sub(l0, h1), new(big.Int).Sub(h0, l1), true
+	case Mul:
+		l1, h1 := p.uRange(t.A[1])
+		return new(big.Int).Mul(l0, l1), new(big.Int).Mul(h0, h1), true
+	case Shl:
+		if t.A[1].IsConst() && t.A[1].Big == nil && int(t.A[1].K) < t.W {
+			return new(big.Int).Lsh(l0, uint(t.A[1].K)), new(big.Int).Lsh(h0, uint(t.A[1].K)), true
+		}
+	}
+	return nil, nil, false
+}
+
+func (p *Printer) noWrap(t *T) bool {
+	l, h, ok := p.rawRange(t)
+	return ok && l.Sign() >= 0 && h.Cmp(pow2(t.W)) < 0
+}
+
 func (p *Printer) bodyInt(t *T) string {
 	w := t.W
 	sg := t.Sg
 	a := func(i int) string { return p.as(t.A[i], sg) }
 	switch t.Op {
 	case Add:
+		if p.noWrap(t) {
+			return "(+ " + a(0) + " " + a(1) + ")"
+		}
 		return p.wrapTo("(+ "+a(0)+" "+a(1)+")", w, sg)
 	case Sub:
+		if p.noWrap(t) {
+			return "(- " + a(0) + " " + a(1) + ")"
+		}
 		return p.wrapTo("(- "+a(0)+" "+a(1)+")", w, sg)
 	case Mul:
+		if p.noWrap(t) {
+			return "(* " + a(0) + " " + a(1) + ")"
+		}
 		return p.wrapTo("(* "+a(0)+" "+a(1)+")", w, sg)
 	case Neg:
 		return p.wrapTo("(- "+a(0)+")", w, sg)
@@ -298,6 +463,11 @@ func (p *Printer) bodyInt(t *T) string {
 				v := t.A[i].ConstBig()
 				o := p.asU(t.A[1-i])
 				if k, ok := lowMask(v); ok {
+					if !t.A[1-i].Sg {
+						if _, h := p.uRange(t.A[1-i]); h.Cmp(pow2(k)) < 0 {
+							return o // the mask keeps every bit the operand can have
+						}
+					}
 					return "(mod " + o + " " + pow2(k).String() + ")"
 				}
 				inv := new(big.Int).Sub(new(big.Int).Sub(pow2(w), big.NewInt(1)), v)
@@ -312,9 +482,18 @@ func (p *Printer) bodyInt(t *T) string {
 		}
 		p.fail("bvand with non-mask operand in integer rendering")
 	case Or, Xor:
+		// bit-disjoint operands: x<<s | y>>t with t >= w-s (the left operand has
+		// its low s bits clear, the right operand fits in them) is a sum
+		if lz, tz, ok := disjointBits(t.A[0], t.A[1], w); ok {
+			_, _ = lz, tz
+			return "(+ " + p.asU(t.A[0]) + " " + p.asU(t.A[1]) + ")"
+		}
 		p.fail("symbolic " + opNames[t.Op] + " in integer rendering")
 	case Shl:
 		if e, ok := p.pow2Of(t.A[1], w); ok {
+			if p.noWrap(t) {
+				return "(* " + a(0) + " " + e + ")"
+			}
 			return p.wrapTo("(* "+a(0)+" "+e+")", w, sg)
 		}
 		return "0"
